@@ -5,9 +5,9 @@ package hdr
 // block-tree model; which oracles run after each step is selected by the Focus of the leg.
 
 import (
-	"os"
 	"fmt"
 	"math/big"
+	"os"
 	"sort"
 	"strings"
 	"testing"
@@ -91,15 +91,16 @@ type Sub struct {
 
 // Inst is one repository instance with the model's view of what it accepted and must still hold.
 type Inst struct {
-	name     string
-	repo     *headers.Repository
-	store    *memstore.Store
-	acc      model.Set // headers this instance accepted (or restored)
-	held     model.Set // subset the instance is obliged to still recognise as attach points
-	invalid  map[model.Hash]bool
-	excluded model.Set // accepted once, removed by an invalid mark
-	forgot   model.Set // accepted by a previous generation, not restored by Load (dropped side branches)
-	subs     []*Sub
+	name         string
+	repo         *headers.Repository
+	store        *memstore.Store
+	acc          model.Set // headers this instance accepted (or restored)
+	held         model.Set // subset the instance is obliged to still recognise as attach points
+	invalid      map[model.Hash]bool
+	excluded     model.Set // accepted once, removed by an invalid mark
+	lastReported *model.Node
+	forgot       model.Set // accepted by a previous generation, not restored by Load (dropped side branches)
+	subs         []*Sub
 
 	lastSaveWork *big.Int // work of the tip at the last completed Save (C12)
 	floor        int      // upper bound of the lowest best-chain height still in memory
@@ -339,6 +340,17 @@ func (m *M) reported(inst *Inst) *model.Node {
 		delete(inst.forgot, a)
 		inst.acc[a], inst.held[a] = true, true
 	}
+	// ... also below headers that were kept (a kept header whose parent was dropped, extended
+	// until its chain is the best one again)
+	if len(inst.forgot) > 0 && inst.lastReported != n {
+		for f := range inst.forgot {
+			if model.IsAncestorOrEqual(f, n) {
+				delete(inst.forgot, f)
+				inst.acc[f] = true
+			}
+		}
+	}
+	inst.lastReported = n
 	return n
 }
 
